@@ -8,7 +8,8 @@
 (*                    chk2    Computing -> return None; Computed/Realized -> return obj   *)
 (*                    setcomputing   *state = Computing (the generator is taken out)       *)
 (*                    gen     gen.call0(py)  -- the producer: Python code, may block,      *)
-(*                            raise, or call seq() on the same cell again                 *)
+(*                            raise, or call seq() on the same cell again (EnterGen ..     *)
+(*                            pstart .. pend .. LeaveGen: Python level in between)         *)
 (*                    setcomputed    *state = Computed(obj); inner guard dropped           *)
 (*                    err1/err2      `?`: the error leaves _compute_seq, then seq()        *)
 (*   seq():           chk3    Computed(obj) -> realize;  anything else -> return None      *)
@@ -47,7 +48,7 @@ ISetTop(t, f) == [fr EXCEPT ![t] = [@ EXCEPT ![Len(@)] = f]]
 IPush(t, f) == [fr EXCEPT ![t] = Append(@, f)]
 IPop(t) == [fr EXCEPT ![t] = SubSeq(@, 1, Len(@) - 1)]
 ICallF(op, c) == [k |-> "call", op |-> op, c |-> c, cur |-> c, pc |-> "lock1", res |-> NilV]
-IProdF(c) == [k |-> "prod", op |-> "-", c |-> c, cur |-> 0, pc |-> "body", res |-> NilV]
+IProdF(c) == [k |-> "prod", op |-> "-", c |-> c, cur |-> 0, pc |-> "entered", res |-> NilV]
 GilOK(t) == gil \in {0, t}
 AtPc(t, pc) == IDepth(t) > 0 /\ ITop(t).k = "call" /\ ITop(t).pc = pc
 InBody(t) == IDepth(t) > 0 /\ ITop(t).k = "prod" /\ ITop(t).pc \in {"body", "awake"}
@@ -73,10 +74,12 @@ ICall(t, op, c) == /\ GilOK(t) /\ c \in ICells /\ op \in Ops
                    /\ fr' = IPush(t, ICallF(op, c))
                    /\ UNCHANGED <<gil, mown, mcnt, lst>>
 
-IPStart(t, k) == /\ GilOK(t) /\ AtPc(t, "gen") /\ ITop(t).cur = k
-                 /\ fr' = [fr EXCEPT ![t] = Append([@ EXCEPT ![Len(@)] = [@ EXCEPT !.pc = "ingen"]], IProdF(k))]
-                 /\ gil' = 0
-                 /\ UNCHANGED <<mown, mcnt, lst>>
+(* the producer (Python code) logs that it has been entered / that it is about to return or raise; the call into  *)
+(* it and the return from it are silent steps of the mechanism (IEnterGen, ILeaveGen below): between them the     *)
+(* thread is at Python level and may lose the interpreter lock at any moment                                      *)
+IPStart(t, k) == /\ GilOK(t) /\ IDepth(t) > 0 /\ ITop(t).k = "prod" /\ ITop(t).pc = "entered" /\ ITop(t).c = k
+                 /\ fr' = ISetTop(t, [ITop(t) EXCEPT !.pc = "body"])
+                 /\ UNCHANGED <<gil, mown, mcnt, lst>>
 
 (* the producer blocks outside the interpreter lock (Event.wait) until the harness lets it go on; *)
 (* coming back needs the interpreter lock                                                         *)
@@ -88,10 +91,8 @@ IResume(t) == /\ GilOK(t) /\ IDepth(t) > 0 /\ ITop(t).k = "prod" /\ ITop(t).pc =
               /\ UNCHANGED <<gil, mown, mcnt, lst>>
 
 IPEnd(t, k, ok) == /\ GilOK(t) /\ InBody(t) /\ ITop(t).c = k
-                   /\ fr' = [fr EXCEPT ![t] = LET d == Len(@) IN
-                                Append(SubSeq(@, 1, d - 2), [@[d - 1] EXCEPT !.pc = IF ok THEN "setcomputed" ELSE "err1"])]
-                   /\ gil' = t
-                   /\ UNCHANGED <<mown, mcnt, lst>>
+                   /\ fr' = ISetTop(t, [ITop(t) EXCEPT !.pc = IF ok THEN "endok" ELSE "enderr"])
+                   /\ UNCHANGED <<gil, mown, mcnt, lst>>
 
 IRet(t, res) == /\ GilOK(t) /\ AtPc(t, "ret") /\ ITop(t).res = res
                 /\ fr' = IPop(t)
@@ -130,6 +131,17 @@ ISetComputing(t) == /\ GilOK(t) /\ AtPc(t, "setcomputing")
                     /\ lst' = [lst EXCEPT ![ITop(t).cur] = "Computing"]
                     /\ fr' = ISetTop(t, [ITop(t) EXCEPT !.pc = "gen"])
                     /\ UNCHANGED <<gil, mown, mcnt>>
+(* gen.call0(py): Python code starts to run -- from here on the thread can be pre-empted *)
+IEnterGen(t) == /\ GilOK(t) /\ AtPc(t, "gen")
+                /\ fr' = [fr EXCEPT ![t] = Append([@ EXCEPT ![Len(@)] = [@ EXCEPT !.pc = "ingen"]], IProdF(ITop(t).cur))]
+                /\ gil' = 0
+                /\ UNCHANGED <<mown, mcnt, lst>>
+(* ... and comes back into native code with a value or an error *)
+ILeaveGen(t) == /\ GilOK(t) /\ IDepth(t) > 1 /\ ITop(t).k = "prod" /\ ITop(t).pc \in {"endok", "enderr"}
+                /\ fr' = [fr EXCEPT ![t] = LET d == Len(@) IN
+                             Append(SubSeq(@, 1, d - 2), [@[d - 1] EXCEPT !.pc = IF ITop(t).pc = "endok" THEN "setcomputed" ELSE "err1"])]
+                /\ gil' = t
+                /\ UNCHANGED <<mown, mcnt, lst>>
 ISetComputed(t) == /\ GilOK(t) /\ AtPc(t, "setcomputed")
                    /\ lst' = [lst EXCEPT ![ITop(t).cur] = "Computed"]
                    /\ Unlocked(ITop(t).cur)
@@ -163,7 +175,7 @@ Observes(t) == \/ (AtPc(t, "chk1") /\ lst[ITop(t).cur] = "Realized")
 ObservedValue(t) == IF AtPc(t, "chk3") THEN "nil" ELSE Content(ITop(t).cur)
 
 Internal(t) == ILock1(t) \/ IBlockedAcquire(t) \/ IChk1(t) \/ ILock2(t) \/ IChk2(t) \/ ISetComputing(t)
-               \/ ISetComputed(t) \/ IErr1(t) \/ IErr2(t) \/ IChk3(t) \/ IRealize(t)
+               \/ IEnterGen(t) \/ ILeaveGen(t) \/ ISetComputed(t) \/ IErr1(t) \/ IErr2(t) \/ IChk3(t) \/ IRealize(t)
 
 (* a thread that has something to do but cannot move, and will not unless somebody else does *)
 Waiting(t) == IDepth(t) > 0 /\ (~GilOK(t) \/ (AtPc(t, "lock1") /\ mown[ITop(t).cur] \notin {0, t} /\ ~LockUnderGIL)
